@@ -84,7 +84,7 @@ SED = (r's/\\cref{zzeq}/\\cref@equation@name \\nobreakspace \\textup {(\\ref {zz
        r's/\\cref@equation@name /eq\./g' '\n'
        r's/\\Cref@equation@name /Equation/g' '\n'
        r's/\\cref@section@name /section/g' '\n')
-DEFS = ('\\gls@defglossaryentry{zzgl}{name={Glsname},text={glstext one},plural={glsplurals},description={descr words}}\n'
+DEFS = ('\\gls@defglossaryentry{zzgl}{name={Glsname},text={glstext one},plural={glsplurals},description={descr\n                           words}}\n'
         '\\gls@defglossaryentry{zzgm}{name={Other},text={secondtext},plural={seconds},description={d}}\n')
 WORD_RE = re.compile(r'W[éäж]?[a-j]{3}q')
 CW_END = re.compile(r'\\[a-zA-Z@]+$')
